@@ -719,8 +719,12 @@ def oa2r(o, a=None):
     o = base.unitvec(o)
     a = base.unitvec(a)
     n = np.cross(o, a)
-    o = np.cross(a, n)
-    R = np.stack((base.unitvec(n), base.unitvec(o), base.unitvec(a)), axis=1)
+    o = base.unitvec(np.cross(a, n))
+    # n again, from the orthogonalised o: the first one carries a relative error
+    # of eps / sin(angle between o and a) and is not orthogonal to a for nearly
+    # parallel vectors
+    n = np.cross(o, a)
+    R = np.stack((base.unitvec(n), o, base.unitvec(a)), axis=1)
     return R
 
 
